@@ -146,6 +146,32 @@ example : ∃ r3 : ℝ, r3 * r3 = 3 := ⟨Real.sqrt 3, Real.mul_self_sqrt (by no
 example : FConst (Real.sqrt 15) (Real.sqrt 10) (Real.sqrt 6) :=
   ⟨Real.mul_self_sqrt (by norm_num), Real.mul_self_sqrt (by norm_num), Real.mul_self_sqrt (by norm_num)⟩
 
+/-! ## T5  local frames built from a user-given z axis (`read_xzaxis`, before normalisation) -/
+
+/-- T5a.  For EVERY z axis and every reference vector the Gram–Schmidt vector of the code is perpendicular to z, and
+    y = z × x is perpendicular to both: the frame is orthogonal whatever the direction of z. -/
+theorem frame_orthogonal {K : Type} [CommRing K] (z b : V3 K) :
+    dotV (perpCoplanar z b) z = 0 ∧ dotV (cross3 z (perpCoplanar z b)) z = 0 ∧
+      dotV (cross3 z (perpCoplanar z b)) (perpCoplanar z b) = 0 := by
+  refine ⟨?_, ?_, ?_⟩ <;> simp [dotV, perpCoplanar, cross3] <;> ring
+
+/-- T5b.  Its squared length is `|z × b|² |z|²` (Lagrange), so it can be normalised exactly when z is not collinear with
+    the reference - the admissibility condition the code tests. -/
+theorem frame_x_norm {K : Type} [CommRing K] (z b : V3 K) :
+    dotV (perpCoplanar z b) (perpCoplanar z b) = dotV (cross3 z b) (cross3 z b) * dotV z z := by
+  simp [dotV, perpCoplanar, cross3]; ring
+
+/-- T5c.  The shortcut "z nearly along x: use the Cartesian y" breaks orthogonality: for z = (1, 1/125, 0) (0.46° off the
+    x axis) it returns x = (0,1,0) with x·z = 1/125 ≠ 0, whereas the code's rule gives x·z = 0. -/
+theorem frame_shortcut_not_orthogonal :
+    let z : V3 Rat := fun a => match a.val with | 0 => 1 | 1 => 1 / 125 | _ => 0
+    dotV (frameXShortcut z) z ≠ 0 ∧ dotV (frameX z) z = 0 ∧ dotV (frameX z) (frameX z) ≠ 0 := by
+  decide +kernel
+
+/-- non-vacuity of T5a/b: a generic z axis gives a non-zero x axis -/
+example : dotV (frameX (fun a : Fin 3 => ((a.val : Int) : Rat) + 1)) (frameX (fun a : Fin 3 => ((a.val : Int) : Rat) + 1)) = 182 := by
+  decide +kernel
+
 /-! ## T3  hybrids  `M · A · Mᵀ` -/
 
 section hybrids
